@@ -93,6 +93,9 @@ CONTROLS = {
         ("allocation in a destructor", E, "  ClipperBase::~ClipperBase()\n  {\n    Clear();\n  }",
          "  ClipperBase::~ClipperBase()\n  {\n    Clear();\n    outrec_list_.reserve(16);\n  }", "ALLOC.noexcept"),
         ("comparator not irreflexive", E, "        return locMin2->vertex->pt.x > locMin1->vertex->pt.x;", "        return locMin2->vertex->pt.x >= locMin1->vertex->pt.x;", "T.comparator"),
+        ("RDP copies the path at every recursion level again", H + "clipper.h", "  inline void RDP(const Path<T>& path, std::size_t begin,", "  inline void RDP(const Path<T> path, std::size_t begin,", "RECURSION"),
+        ("CheckSplitOwner recurses before the visited mark again", E, "        split->recursive_split != outrec) //#942\n      {\n        split->recursive_split = outrec; // prevent infinite loops (as below)\n        if (CheckSplitOwner(outrec, split->splits)) return true;\n      }",
+         "        CheckSplitOwner(outrec, split->splits)) return true; //#942", "RECURSION"),
         ("DoSplitOp publishes the detached pair before the allocation", E, "      newOr->owner = outrec->owner;\n", "      newOr->owner = outrec->owner;\n      newOr->pts = splitOp;\n", "LINK.consistent-at-throw"),
         ("AddOutPt leaves the ring open", E, "    op_front->next = new_op;\n", "", "LINK.consistent-at-throw"),
         ("DisposeOutPt deletes before unlinking", E, "    op->prev->next = op->next;\n    op->next->prev = op->prev;\n    delete op;", "    delete op;\n    op->prev->next = op->next;\n    op->next->prev = op->prev;", "LINK.consistent-at-throw"),
